@@ -118,7 +118,7 @@ def run_spec(spec, points, tier, visit, quick_slice=0, honesty=False):
         combs = [c for c in combs if c.x in (0.05, 0.75, 4.0, 100.0, -2.0)]
     methods = cm.METHODS if real else ['central', 'forward', 'backward']
     ncalls = 0
-    d1 = tier == 'thorough' and real and jets.depth(spec[1]) <= 1 or (tier == 'thorough' and not real and spec[0] == 'rot')
+    d1 = tier == 'thorough' and ((real and jets.depth(spec[1]) <= 1) or (spec[0] == 'rot' and jets.depth(spec[2]) <= 1))
     q1 = tier == 'quick' and real and jets.depth(spec[1]) <= 1 and fw.h64(spec) % 4 == quick_slice
     for method in methods:
         gens = [('default', {})]
